@@ -66,3 +66,69 @@ func addEmpties(r *core.Rand, m protoreflect.Message, num, den, depth int) int {
 	})
 	return n
 }
+
+// OddTexts are strings with unusual content: far more bytes than characters, far more characters than a small
+// buffer, invalid UTF-8, NUL and other control characters, separators. (proto2 strings are not validated.)
+var OddTexts = []string{
+	"月月月月月月月月月月月月月月月月月月月月月月月月月月月月月月月月月月月月月月月月月月月月月月月月月月月月月月月月月月月月月月月月月月月月月月月月月月月月月月月月月月月月月月月月月月月月月月月月月月月月",
+	"éxéxéxéxéxéxéxéxéxéxéxéxéxéxéxéxéxéxéxéxéxéxéxéxéxéxéxéxéxéxéxéxéxéxéxéxéxéxéxéxéxéxéxéxéxéxéxéxéxéxéxéxéxéxéxéxéxéxéxéxéxéxéxéxéxéxéxéxéxéxéxéxéxéxéxéxéxéxéxéxéxéxéxéxéxéxéxéxéxéxéxéxéxéxéxéxéxéxéxéxéxéxéxéxéxéxéxéxéxéxéxéxéxéxéxéxéxéxéxéxéxéxéxéxéxéxéxéxéxéxéxéxéxéxéxéxéxéxéxéxéxéxéxéxéxéxéxéxéx",
+	"\xff\xfe\xfd", "a\x00b", "\x00", "a\x1fb", "\x1f", "caf\xe9", "\xc3", "\u202e", "\ufeffbom", "  ", "\r\n", "٣٤", "Ⅻ", "½",
+}
+
+// SetOddStrings walks a protobuf message (extension payloads included) and replaces string fields that are already
+// set by an odd text with probability num/den per site; sometimes by a long ASCII text. Returns the number of sites changed.
+func SetOddStrings(r *core.Rand, m proto.Message, num, den int) int {
+	return setOdd(r, m.ProtoReflect(), num, den, 0)
+}
+
+func oddText(r *core.Rand) string {
+	switch r.Intn(10) {
+	case 0:
+		n := core.Pick(r, []int{255, 256, 257, 300, 1024, 4097})
+		b := make([]byte, n)
+		for i := range b {
+			b[i] = 'a' + byte(i%26)
+		}
+		return string(b)
+	case 1:
+		s := ""
+		for i := 0; i < core.Pick(r, []int{90, 130, 260}); i++ {
+			s += "日"
+		}
+		return s
+	}
+	return core.Pick(r, OddTexts)
+}
+
+func setOdd(r *core.Rand, m protoreflect.Message, num, den, depth int) int {
+	if depth > 6 {
+		return 0
+	}
+	n := 0
+	m.Range(func(fd protoreflect.FieldDescriptor, v protoreflect.Value) bool {
+		switch {
+		case fd.Kind() == protoreflect.StringKind && !fd.IsList():
+			if r.Chance(num, den) {
+				m.Set(fd, protoreflect.ValueOfString(oddText(r)))
+				n++
+			}
+		case fd.Kind() == protoreflect.StringKind && fd.IsList():
+			l := v.List()
+			for k := 0; k < l.Len(); k++ {
+				if r.Chance(num, den) {
+					l.Set(k, protoreflect.ValueOfString(oddText(r)))
+					n++
+				}
+			}
+		case fd.Kind() == protoreflect.MessageKind && fd.IsList():
+			l := v.List()
+			for k := 0; k < l.Len(); k++ {
+				n += setOdd(r, l.Get(k).Message(), num, den, depth+1)
+			}
+		case fd.Kind() == protoreflect.MessageKind && !fd.IsMap():
+			n += setOdd(r, v.Message(), num, den, depth+1)
+		}
+		return true
+	})
+	return n
+}
